@@ -5,12 +5,14 @@
 (*   rel = "langs"  run 2 generates a subset of run 1's languages -> LanguageIndependent   (C07)       *)
 (*   rel = "perm"   two inputs of different packages swapped   -> InputOrderIndependent    (C07)       *)
 (*   rel = "extra"  run 2 has one more input, of a package nothing references -> UnrelatedInputIrrelevant *)
+(*                  (ExtraInputs: one such package ordered AFTER every other one, one ordered BEFORE them; either *)
+(*                  first or last in the list of inputs)                                                         *)
 (* plus the single-run invariants MergeIsUnionOrConflict and InputsNeverMutated of each copy.          *)
 (* Baseline1 = TRUE fixes run 1 to the canonical schedule (determinism: "every schedule agrees with    *)
 (* the canonical one" is equivalent to "any two schedules agree" and has far fewer witnesses).         *)
 EXTENDS Naturals, Sequences, FiniteSets, TLC, Json
 
-CONSTANTS AsCoded, Faults, Rank, DrawAll, Langs, InputSeqs, Cfgs, Baseline1, Rels, ExtraInput
+CONSTANTS AsCoded, Faults, Rank, DrawAll, Langs, InputSeqs, Cfgs, Baseline1, Rels, ExtraInputs
 
 VARIABLES rel,
           inputs1, cfg1, pc1, loaded1, S1, handed1, ctx1, files1, dir1, err1, todo1, cur1, sched1,
@@ -58,7 +60,7 @@ Related(r, i, c) ==
   CASE r = "same"  -> {<<i, c>>}
     [] r = "langs" -> {<<i, [c EXCEPT !.langs = ls]>> : ls \in (SUBSET c.langs) \ {{}, c.langs}}
     [] r = "perm"  -> IF Len(i) = 2 /\ i[1].pkg # i[2].pkg THEN {<<<<i[2], i[1]>>, c>>} ELSE {}
-    [] r = "extra" -> IF ExtraInput.pkg \notin PkgsOfInputs(i) THEN {<<Append(i, ExtraInput), c>>, <<<<ExtraInput>> \o i, c>>} ELSE {}
+    [] r = "extra" -> UNION {{<<Append(i, e), c>>, <<<<e>> \o i, c>>} : e \in {x \in ExtraInputs : x.pkg \notin PkgsOfInputs(i)}}
 
 Init == \E r \in Rels, i \in InputSeqs, c \in Cfgs : \E ic \in Related(r, i, c) :
            rel = r /\ R1!InitWith(i, c) /\ R2!InitWith(ic[1], ic[2])
